@@ -880,7 +880,6 @@ func callsRecover(fn *ssa.Function) bool {
 	return false
 }
 
-
 // encodeSortSliceCall models sort.Slice / sort.SliceStable(x, less) when `less` is a closure made in
 // this function whose contract says `result == <expr over i, j and captured variables>`: the elements
 // of x are permuted, every other array is untouched, the result is ordered with respect to that
